@@ -42,14 +42,14 @@ def cases(rng, tier, Case):
     if tier != "quick":
         descs += ["before " + deep(300) + " after", "*a " * 200 + "b" + " a*" * 200]
     else:
-        descs += ["before " + deep(140) + " after"]
+        descs += ["before " + deep(140) + " after", "before " + deep(300) + " after"]
     for _ in range(n):
         descs.append(desc(rng))
     for d in descs:
         d = mdgen.clean_utf8(d).strip()
         if not d or re.search(r"\n[ \t]*\n", d):
             continue
-        res.append(Case("parse Cs 100 TR %s" % hx("![" + d + "](x)"), "image", {"src": hx(d)}))
+        res.append(Case("parse Cs 100 TR %s" % hx("![" + d + "](x)"), "image", {"src": hx(d)}, compare=len(d) < 700))
         res.append(Case("parse Cs 100 TR %s" % hx("> - ![" + d.replace("\n", " ") + "][r]\n\n[r]: /y 't'"), "image-ref", {"src": hx(d)}))
     return res
 
